@@ -112,7 +112,7 @@ IDENTITY_FNS = {
     ("core", "into"), ("core", "from"), ("core", "clone"), ("alloc", "clone"),
     ("core", "must_use"), ("core", "as_slice"), ("core", "as_mut_slice"), ("core", "get"),
     ("alloc", "into_boxed_slice"), ("alloc", "into_boxed_str"), ("alloc", "as_str"),
-    ("core", "assume_init_mut"), ("core", "assume_init_ref"),
+    ("core", "assume_init_mut"), ("core", "assume_init_ref"), ("core", "by_ref"),
 }
 
 
